@@ -168,6 +168,7 @@ type Program struct {
 	ExtraSets  []*Set
 	Hist       int // history length for the fault enumerator (0/1: single failures only)
 	ExtraDecl  string // raw declarations appended to the root package's defs.go (scope pollution)
+	WireImport       int    // how user files import wire: 0 plain, 1 under the alias w, 2 dot import
 	UserImportPrefix string // user files import the case's own packages under this prefix + package name (so that package names may collide with the user's identifiers)
 	PairSets   bool   // declare consecutive named sets of a package pairwise: var A, B = wire.NewSet(..), wire.NewSet(..)
 }
